@@ -94,7 +94,7 @@ func TestVX_C12b(t *testing.T) {
 		}
 		maps = append(maps, m)
 	}
-	for _, n := range []string{"identity", "readme", "quant5", "three", "plateau", "compress"} {
+	for _, n := range []string{"identity", "readme", "quant5", "three", "plateau", "splateau", "compress"} {
 		maps = append(maps, vxMap(n))
 	}
 	var nontrivial int64
@@ -236,7 +236,7 @@ func TestVX_C07b(t *testing.T) {
 		step = 5
 	}
 	var cfgs []vxCfg
-	for _, mp := range []string{"identity", "readme", "quant5", "plateau", "three", "compress"} {
+	for _, mp := range []string{"identity", "readme", "quant5", "plateau", "splateau", "three", "compress"} {
 		for _, ns := range []bool{false, true} {
 			for mn := 0; mn <= 255; mn += step {
 				for mx := mn; mx <= 255; mx += step {
